@@ -28,6 +28,7 @@ type Program struct {
 	stubs    map[string]int // intrinsic name -> calls
 
 	cellMu      sync.RWMutex
+	fnInfos     sync.Map
 	written     map[string]bool
 	writtenGrew bool
 }
@@ -91,7 +92,8 @@ type SchedEvent struct {
 
 type Frame struct {
 	fn      *ssa.Function
-	locals  map[ssa.Value]Value
+	locals  []Value
+	info    *fnInfo
 	env     []Value
 	block   *ssa.BasicBlock
 	prev    *ssa.BasicBlock
